@@ -163,4 +163,4 @@ def run(pid, tier, seed):
         for k, what in replay(pid, rc["case"]):
             camp.fail(k, what, rc["case"])
     camp.merge(core.run_shards(shard, [dict(seed=core.seed_of(seed, s, 14), n=n) for s in range(shards)]))
-    return core.finish(pid, tier, seed, camp, RULE, t0, assumptions=["names starting with a digit are excluded (no valid guard symbol exists for them)"])
+    return core.finish(pid, tier, seed, camp, RULE, t0, replay_fn=replay, assumptions=["names starting with a digit are excluded (no valid guard symbol exists for them)"])
